@@ -65,6 +65,33 @@ func immArray(addr string, s Sort) (string, bool) {
 	return fmt.Sprintf("imm_%d_%s", id, s.Mangle()), true
 }
 
+// immArrayOfStore: the heap array a store through addr writes, if addr is a field declared
+// immutable (the store is then in one of the field's listed writers).
+func (e *Engine) immArrayOfStore(addr ssa.Value) (string, Sort, bool) {
+	fa, ok := addr.(*ssa.FieldAddr)
+	if !ok {
+		return "", "", false
+	}
+	pt, ok := fa.X.Type().Underlying().(*types.Pointer)
+	if !ok {
+		return "", "", false
+	}
+	n, ok := pt.Elem().(*types.Named)
+	if !ok || n.Obj().Pkg() == nil {
+		return "", "", false
+	}
+	st, ok := n.Underlying().(*types.Struct)
+	if !ok || fa.Field >= st.NumFields() {
+		return "", "", false
+	}
+	f := e.cs.ImmFields[n.Obj().Pkg().Path()+"."+n.Obj().Name()+"."+st.Field(fa.Field).Name()]
+	if f == nil || f.Broken != "" {
+		return "", "", false
+	}
+	s := e.te.SortOf(st.Field(fa.Field).Type())
+	return fmt.Sprintf("imm_%d_%s", f.ID, s.Mangle()), ArrSort(SRef, s), true
+}
+
 func pfID(name string) int {
 	var id int
 	if _, err := fmt.Sscanf(name, "pf_%d_", &id); err != nil {
